@@ -237,7 +237,12 @@ func TestC05(t *testing.T) {
 				// returns an I/O error - not "not found"; an operation that swallows it or takes it for absence would leave
 				// a state that differs from the model at the pointer or from the reopened image. Not during a reopen: a
 				// node that cannot read its disk at start-up simply does not start
-				if os.Getenv("C05_NO_READ_FAULTS") != "1" && op.Op != "reopen" && rapid.IntRange(0, 2).Draw(rt, "readfault") == 0 {
+				wantRead := os.Getenv("C05_NO_READ_FAULTS") != "1" && op.Op != "reopen" && rapid.IntRange(0, 2).Draw(rt, "readfault") == 0
+				if wantRead && c05ReadFaultsExcluded(cs, fs) {
+					// listed finding C05-read-error-in-play-cleanup-keeps-total still reproduces: a write fault instead
+					wantRead = false
+				}
+				if wantRead {
 					nth = rapid.IntRange(1, 4*maxN).Draw(rt, "nthread")
 					cs.Op(faultOp{Fault: nth, Read: true, Op: op})
 					fired, aerr = nm.ApplyWithReadFault(op, nth)
@@ -282,6 +287,17 @@ func TestC05(t *testing.T) {
 			cs.Nontrivial()
 		}
 	})
+}
+
+// c05ReadFaultsExcluded: READ faults are excluded by construction while the listed finding about the roll-back's own
+// disk read (C05-read-error-in-play-cleanup-keeps-total) is active; every exclusion is counted.
+func c05ReadFaultsExcluded(cs *hx.Case, fs *hx.FindingSet) bool {
+	const id = "C05-read-error-in-play-cleanup-keeps-total"
+	if os.Getenv("C05_FORCE_READ_FAULTS") == "1" || !fs.Active(id) {
+		return false
+	}
+	cs.Exclude(id)
+	return true
 }
 
 func TestC06(t *testing.T) {
